@@ -16,7 +16,13 @@ func replay(p *Pipeline, rf *replayFile, path string) int {
 	case "C05":
 		reqs := p.buildPluginAndRequests()
 		p.setupVariant(rf.Variant, reqs, true)
-		bin = p.buildEngA(rf.Variant, rf.Build)
+		if rf.Build == "race-detmarshal" {
+			var env []string
+			bin, env = p.buildEngB(rf.Variant)
+			rf.Env = env
+		} else {
+			bin = p.buildEngA(rf.Variant, rf.Build)
+		}
 	case "C11", "C07":
 		reqs := p.buildPluginAndRequests()
 		p.setupVariant(rf.Variant, reqs, true)
